@@ -66,7 +66,7 @@ var propertyCanaries = map[string][]string{
 	"C08": {"STRIDE.fullrange", "BETA.scaleguard", "CONSTFOLD.underflow", "ASM.lost", "PARAMUSE.read", "ASM.window", "ASM.tail", "ASM.units", "STRIDE.extent", "SIB.guards"},
 	"C09": {"CALLBACK.owncopy", "GOPROTO.latch", "GOPROTO.lockexit", "RAW.stride", "GOPROTO.accumzero", "GOPROTO.semcap", "GOPROTO.scratch", "GLOBAL.write", "GOPROTO.capture", "GOPROTO.lockpair", "GOPROTO.sibling", "POOL.uaf"},
 	"C12": {"ITER.remaining", "GRAPHINV.rangefirst", "GRAPHINV.diag", "GRAPHINV.nilentry", "GRAPHINV.mapinit", "GRAPHINV.relit", "GRAPHINV.together", "GRAPHINV.expose", "SWAP.cond", "GRAPHINV.prune", "TWIN.sibguard", "GRAPHINV.panicorder", "GRAPHINV.absent", "GRAPHINV.iterreset", "GRAPHINV.converse", "GRAPHINV.uid", "GRAPHINV.iter", "TWIN.sibstate"},
-	"C16": {"NILGUARD.sibling", "ERR.overwrite", "ERR.swallow", "RESET.revive", "DECODE.order", "DECODE.errdrop", "DECODE.mul", "DECODE.selfcmp", "DECODE.clone", "DECODE.fields"},
+	"C16": {"DECODE.square", "NILGUARD.sibling", "ERR.overwrite", "ERR.swallow", "RESET.revive", "DECODE.order", "DECODE.errdrop", "DECODE.mul", "DECODE.selfcmp", "DECODE.clone", "DECODE.fields"},
 	"C17": {"GLOBAL.state", "CMPLX.parts", "RESET.noleak", "GLOBAL.write", "RESET.fields", "WINDOW.pointwise"},
 	"C18": {"CALLBACK.owncopy", "ERR.overwrite", "ERR.swallow", "SETTINGS.readonly", "RAW.stride", "SWAP.cond", "GOPROTO.accumzero", "CONST.stencil", "GOPROTO.sibling"},
 	"C19": {"SENTINEL.index", "STATUS.dropped", "INIT.complete", "GOPROTO.latch", "ERR.overwrite", "ERR.swallow", "SETTINGS.readonly", "OPT.maskpair", "ALIAS.config", "OPT.limits", "GOPROTO.scratch", "GOPROTO.run", "INIT.state"},
@@ -126,6 +126,7 @@ func init() {
 		{"LOOPIDX.continue", "blas/gonum/level2float64.go", "\t\t\t\tatmp := ap[offset:]\n\t\t\t\txi := x[i]\n\t\t\t\tyi := y[i]\n\t\t\t\txtmp := x[i:n]", "\t\t\t\tatmp := ap[offset:]\n\t\t\t\txi := x[i]\n\t\t\t\tyi := y[i]\n\t\t\t\tif xi == 0 && yi == 0 {\n\t\t\t\t\tcontinue\n\t\t\t\t}\n\t\t\t\txtmp := x[i:n]", func() *core.Result { return loopidx.RunContinueSkip(def, core.Pkgs("./blas/gonum")) }},
 		{"MAT.access", "mat/matrix.go", "\tif i < 0 || i >= r {\n\t\tpanic(ErrRowAccess)", "\tif i < 0 || i >= r {\n\t\tpanic(ErrColAccess)", func() *core.Result { return matargs.RunAccess(def) }},
 		{"SENTINEL.index", "optimize/listsearch.go", "\tif l.bestIdx < 0 || task.F < l.bestF {", "\tif task.F < l.bestF {", func() *core.Result { return flagx.RunSentinelIndex(def, core.Pkgs("./optimize")) }},
+		{"DECODE.square", "graph/encoding/digraph6/digraph6.go", "\tif n != 0 && n > maxInt/n {\n\t\t// n*n overflows; no data can be that long.\n\t\treturn false\n\t}\n", "\t_ = maxInt\n", func() *core.Result { return decode.RunSquare(def, "./graph/encoding/digraph6") }},
 		{"ARGS.workquery", "lapack/gonum/dgeqrf.go", "case len(work) < max(1, lwork):", "case len(work) < lwork:", func() *core.Result { return flagx.RunWorkQuery(def, core.Pkgs("./lapack/gonum")) }},
 		{"ARGS.callee", "lapack/gonum/dsytrd.go", "case len(d) < n:", "case len(d) < n-1:", func() *core.Result { return worksize.RunCallee(def, core.Pkgs("./lapack/gonum")) }},
 		{"GRAPHINV.together", "graph/simple/weighted_undirected.go", "\tif fm, ok := g.edges[fid]; ok {\n\t\tfm[tid] = e\n\t} else {", "\tif fm, ok := g.edges[fid]; ok {\n\t\t_, exists := fm[tid]\n\t\tfm[tid] = e\n\t\tif exists {\n\t\t\treturn\n\t\t}\n\t} else {", func() *core.Result { return graphinv.Run(def) }},
